@@ -784,7 +784,7 @@ def result_lit(v, kind):
     return zlit(int(v))
 
 
-COQ_HDR = common.CASES_HEADER + "From J2O Require Import Tensor Batch Graph Lowering LoweringSem OnnxInt Kernels Lift LiftProg LiftReduce LiftStruct.\n"
+COQ_HDR = common.CASES_HEADER + "From J2O Require Import Tensor Batch Graph Lowering LoweringSem OnnxInt Kernels Lift LiftProg LiftReduce LiftCall LiftStruct.\n"
 
 
 def eq_term(kind, a, b):
@@ -1032,6 +1032,25 @@ def d1_prepare(ctx, tier, rng):
         for y in (0, 1, 2, 3):
             cols = (np.array(int_values(dt, small=True), dtype=dt),)
             add(f"Pow({y})", "Pow", {}, [dt], cols, f"(fun x => o_pow {sb_lit(dt)} x {y})", "int", consts=[np.array(y, dtype=dt)])
+    # ArgMax / ArgMin(axis=1, keepdims=0, select_last_index=0) over rows of three elements with ties
+    for op, fn in (("ArgMax", "Z.of_nat (o_argmax [a; b; c])"), ("ArgMin", "Z.of_nat (o_argmin [a; b; c])")):
+        for dt in INT_DTYPES:
+            info = np.iinfo(dt)
+            tv = sorted({info.min, info.max, 0, 1, info.max - 1})
+            mat = np.array([(a_, b_, c_) for a_ in tv for b_ in tv for c_ in tv], dtype=dt)
+            model = _one_op_model(op, [dt], [mat.shape], {"axis": 1, "keepdims": 0, "select_last_index": 0})
+            if schema_type_errors(model):
+                skipped_schema.append(f"{op}:{dt}")
+                continue
+            try:
+                out = _ort_run(model, {"i0": mat})
+            except Exception as e:  # noqa: BLE001
+                if "NOT_IMPLEMENTED" in str(e):
+                    skipped_no_kernel.append(f"{op}:{dt}")
+                else:
+                    ctx.oblige(f"tieD1:{op}:{dt}", False, "tie", "onnxruntime failed on a one-op model: " + str(e)[:300])
+                continue
+            items.append((op, op, dt, f"(fun a b c => {fn})", tuple(mat[:, j_].copy() for j_ in range(3)), [[int(v)] for v in out.tolist()], "int"))
     # Reduce*(axes=[1], keepdims=0) over rows of three elements
     for op, fn in (("ReduceSum", "o_reduce_sum {SB} [a; b; c]"), ("ReduceProd", "o_reduce_prod {SB} [a; b; c]"),
                    ("ReduceMax", "match o_reduce_max [a; b; c] with Some v => v | None => 0 end"),
@@ -1513,14 +1532,18 @@ CALL_PRIMS = {"jit", "pjit", "closed_call", "core_call"}
 
 
 class SProg:
-    def __init__(self, pid, text, make, shapes, dt, avoid=(), small=0):
+    def __init__(self, pid, text, make, shapes, dt, avoid=(), small=0, vals=None):
         self.id, self.text, self.make, self.shapes, self.dt, self.avoid = pid, text, make, shapes, dt, set(avoid)
+        self.vals = vals            # fills drawn from these few values only (many ties)
         self.small = small          # number of leading fills drawn from small values (no overflow inside a reduction)
         self.fn = make()
         self.fills = self.jax = self.err = self.model = self.ort = None
         self.tab = self.prog = self.out = self.real = self.keys = None
         self.type_errors = None
         self.conv_dtype = None
+        self.calls = "[]"
+        self.nested = None
+        self.ns_job = self.nj_job = self.no_job = None
         self.s_job = self.j_job = self.o_job = None
 
 
@@ -1530,8 +1553,8 @@ def struct_corpus(tier):
     from jax import lax
     P = []
 
-    def add(pid, text, fn, shapes, dt="int32", avoid=(), small=0):
-        P.append(SProg(pid, text, (lambda f=fn: f), shapes, dt, avoid, small))
+    def add(pid, text, fn, shapes, dt="int32", avoid=(), small=0, vals=None):
+        P.append(SProg(pid, text, (lambda f=fn: f), shapes, dt, avoid, small, vals))
     add("rank_promo", "x * 2 + y", lambda x, y: x * 2 + y, [(2, 3), (3,)])
     add("where_lit", "where(x > y, x, 0)", lambda x, y: jnp.where(x > y, x, 0), [(2, 3), (3,)])
     add("reshape_T", "(x.reshape(3,2).T + y) * x", lambda x, y: (x.reshape(3, 2).T + y) * x, [(2, 3), (2, 3)])
@@ -1541,6 +1564,8 @@ def struct_corpus(tier):
     add("clipabs", "clip(abs(x) - y, -3, 9)", lambda x, y: jnp.clip(jnp.abs(x) - y, -3, 9), [(2, 3), (1, 3)])
     add("nested_jit", "jit(lambda a,b: maximum(a, b[:,None]) * a)(x,y) - x",
         lambda x, y: jax.jit(lambda a, b: jnp.maximum(a, b[:, None]) * a)(x, y) - x, [(2, 3), (2,)])
+    add("two_calls", "f = jit(lambda a: a * a + 1); f(x) - f(f(y))",
+        lambda x, y: (lambda f: f(x) - f(f(y)))(jax.jit(lambda a: a * a + 1)), [(2, 3), (3,)])
     add("floor_div", "x // where(y == 0, 1, y)", lambda x, y: x // jnp.where(y == 0, 1, y), [(2, 3), (3,)], avoid=(-1,))
     add("swap", "swapaxes(x,0,2) - 1", lambda x: jnp.swapaxes(x, 0, 2) - 1, [(2, 3, 4)])
     add("perm3", "transpose(x,(1,2,0)) + y", lambda x, y: jnp.transpose(x, (1, 2, 0)) + y, [(2, 3, 4), (4, 1)])
@@ -1563,6 +1588,12 @@ def struct_corpus(tier):
     add("lax_slice", "lax.slice(x, (0,1), (2,3)) ^ y", lambda x, y: lax.slice(x, (0, 1), (2, 3)) ^ y, [(2, 4), (2, 2)])
     add("jnp_sum_i8", "sum(x, axis=0) [int8 -> int32]", lambda x: jnp.sum(x, axis=0), [(3, 2)], "int8")
     add("jnp_sum_bool", "sum(x > y, axis=1) [bool -> int32]", lambda x, y: jnp.sum(x > y, axis=1), [(2, 3), (3,)])
+    # argmax / argmin with ties (first index): operands drawn from four values only
+    i32 = np.iinfo(np.int32)
+    add("jnp_argmax", "argmax(x, axis=1)", lambda x: jnp.argmax(x, axis=1), [(3, 4)], vals=[i32.min, -1, 7, i32.max])
+    add("lax_argmin", "lax.argmin(x, 0, int32) + y", lambda x, y: lax.argmin(x, 0, jnp.int32) + y, [(4, 3), (3,)], vals=[i32.min, 0, i32.max])
+    add("argmax_flat", "argmax(x) (all axes) * 2", lambda x: jnp.argmax(x) * 2, [(2, 3)], vals=[-5, 9])
+    add("argmin_u8", "argmin(x, axis=0) [uint8]", lambda x: jnp.argmin(x, axis=0), [(3, 4)], "uint8", vals=[0, 1, 255])
     add("arange", "ravel(x) + arange(6)", lambda x: jnp.ravel(x) + jnp.arange(6, dtype=jnp.int32), [(2, 3)])
     add("iota2", "x * broadcasted_iota((2,3), 0) + iota(3)",
         lambda x: x * lax.broadcasted_iota(jnp.int32, (2, 3), 0) + lax.iota(jnp.int32, 3), [(2, 3)])
@@ -1578,6 +1609,8 @@ def struct_corpus(tier):
         add("lax_max_uint8", "lax.reduce_max(x, (0,)) [uint8]", lambda x: lax.reduce_max(x, axes=(0,)), [(3, 2)], "uint8")
         for dt_ in ("int16", "uint16"):
             add(f"lax_min_{dt_}", f"lax.reduce_min(x, (0,)) [{dt_}]", lambda x: lax.reduce_min(x, axes=(0,)), [(3, 2)], dt_)
+        add("argmax_i8", "lax.argmax(x, 2, int32) [int8]", lambda x: lax.argmax(x, 2, jnp.int32), [(2, 2, 3)], "int8", vals=[-128, 127, 0])
+        add("argmin_i64", "argmin(x, axis=1) [int64]", lambda x: jnp.argmin(x, axis=1), [(3, 3)], "int64", vals=[-2 ** 63, 2 ** 63 - 1, 2 ** 53 + 1, 2 ** 53])
         add("jnp_sum_int16", "sum(x, axis=1) [int16 -> int32]", lambda x: jnp.sum(x, axis=1), [(2, 3)], "int16")
         for dt_ in ("int8", "int16", "uint8", "uint16"):
             add(f"jnp_prod_{dt_}", f"prod(x, axis=1) [{dt_}, promoted by JAX]", lambda x: jnp.prod(x, axis=1), [(2, 3)], dt_, small=2)
@@ -1598,7 +1631,7 @@ def struct_corpus(tier):
 
 def sprog_fills(sp, rng, nfill):
     dt = np.dtype(sp.dt)
-    vals = [v for v in int_values(sp.dt, small=True) if v not in sp.avoid]
+    vals = [v for v in (sp.vals if sp.vals is not None else int_values(sp.dt, small=True)) if v not in sp.avoid]
     fills = []
     for f in range(nfill):
         cols = []
@@ -1640,8 +1673,9 @@ def cten_lit(a):
     return f"(mkC {nlist(a.shape)} ({data}))"
 
 
-def flatten_jaxpr(jp):
-    """inline call primitives (jit bodies), as the converter does: -> (number of inputs, [(primitive, params, operands, out id,
+def flatten_jaxpr(jp, inline=True):
+    """inline call primitives (jit bodies), as the converter does (inline=False: keep them as '__call__' equations whose
+    parameter is the body): -> (number of inputs, [(primitive, params, operands, out id,
     out aval)], output id); operands are ('v', id, aval) or ('lit', value, aval)"""
     counter = [0]
     eqns = []
@@ -1664,6 +1698,13 @@ def flatten_jaxpr(jp):
                     raise Unrecognised(f"{prim} body with constants")
                 if ij.constvars:
                     raise Unrecognised(f"{prim} body with constvars")
+                if not inline:
+                    if len(e.outvars) != 1:
+                        raise Unrecognised(f"{prim} with {len(e.outvars)} results")
+                    o = fresh()
+                    eqns.append(("__call__", {"jaxpr": ij}, [atom(a) for a in e.invars], o, e.outvars[0].aval))
+                    sub[e.outvars[0]] = ("v", o, e.outvars[0].aval)
+                    continue
                 isub = {iv: atom(a) for iv, a in zip(ij.invars, e.invars)}
                 walk(ij, isub)
                 for ov, io in zip(e.outvars, ij.outvars):
@@ -1686,7 +1727,7 @@ def flatten_jaxpr(jp):
     return len(jp.invars), eqns, out[1], counter
 
 
-def sprog_model(sp):
+def sprog_model(sp, nested=False):
     """(table text, program text, output variable, keys) of LiftStruct for the jaxpr the converter sees; Unrecognised when an
     equation is outside the fragment"""
     import jax
@@ -1698,8 +1739,7 @@ def sprog_model(sp):
         sp.conv_dtype = str(np.dtype(cj.out_avals[0].dtype))        # the result type in the converter's own trace
     if cj.consts:
         raise Unrecognised("closed jaxpr with constants")
-    nin, eqns, out, counter = flatten_jaxpr(cj.jaxpr)
-    tab, prog, keys = {}, [], []
+    tab, keys, calls = {}, [], []
     # the plugins' work-dtype tables select between a direct Reduce* and Cast -> Reduce* -> Cast (LiftStruct proves both;
     # tie S checks the real export against the variant the table selects; an invalid direct variant is a finding)
     from jax2onnx.plugins.jax.lax import _reduce_utils as _ru
@@ -1707,137 +1747,162 @@ def sprog_model(sp):
             "prod64": {str(np.dtype(d_)) for d_ in getattr(_ru, "_REDUCEPROD_INT64_WORK_DTYPES", ())},
             "mm32": {str(np.dtype(d_)) for d_ in getattr(_ru, "_REDUCEMINMAX_INT32_WORK_DTYPES", ())}}
 
-    def dtn(aval):
-        return str(np.dtype(aval.dtype))
+    def scope(jx):
+        """one variable scope (the program, or the body of a call when nested): -> (Coq jaxpr text, inputs, output variable)"""
+        nin, eqns, out, counter = flatten_jaxpr(jx, inline=not nested)
+        prog = []
+        def dtn(aval):
+            return str(np.dtype(aval.dtype))
 
-    def emit(key, spec, ins, o):
-        if tab.setdefault(key, spec) != spec:
-            raise Unrecognised(f"key clash {key}")
-        keys.append(key)
-        prog.append(f"mkEqn \"{key}\" [{'; '.join(f'IVar {i}%nat' for i in ins)}] [Some {o}%nat]")
+        def emit(key, spec, ins, o):
+            if tab.setdefault(key, spec) != spec:
+                raise Unrecognised(f"key clash {key}")
+            keys.append(key)
+            prog.append(f"mkEqn \"{key}\" [{'; '.join(f'IVar {i}%nat' for i in ins)}] [Some {o}%nat]")
 
-    def operand(a):
-        if a[0] == "v":
-            return a[1]
-        if a[1].shape != ():
-            raise Unrecognised("non-scalar literal")
-        o = counter[0]
-        counter[0] += 1
-        emit(f"lit:{a[1].dtype}:{a[1].item()}", f"GConst {sval_lit(a[1])}", [], o)
-        return o
-    for prim, params, ins, o, oaval in eqns:
-        p = SPRIM_ALIAS.get(prim, prim)
-        shapes = [tuple(a[2].shape) for a in ins]
-        if p == "broadcast_in_dim":
-            target, bd = tuple(params["shape"]), tuple(params["broadcast_dimensions"])
-            if ins[0][0] == "lit":
-                if ins[0][1].shape != ():
-                    raise Unrecognised("broadcast of a non-scalar literal")
-                emit(f"full:{ins[0][1].dtype}:{ins[0][1].item()}->{list(target)}", f"GFull {nlist(target)} {sval_lit(ins[0][1])}", [], o)
-            else:
-                emit(f"broadcast_in_dim:{list(shapes[0])}->{list(target)}@{list(bd)}",
-                     f"GBcast {nlist(shapes[0])} {nlist(target)} {nlist(bd)}", [ins[0][1]], o)
-        elif p == "reshape":
-            if params.get("dimensions") is not None:
-                raise Unrecognised("reshape with dimensions")
-            new = tuple(params.get("new_sizes", oaval.shape))
-            emit(f"reshape->{list(new)}", f"GReshape {nlist(new)}", [operand(ins[0])], o)
-        elif p == "squeeze":
-            dims = tuple(int(d) % max(1, len(shapes[0])) for d in params["dimensions"])
-            emit(f"squeeze@{list(dims)}", f"GSqueeze {nlist(dims)}", [operand(ins[0])], o)
-        elif p == "transpose":
-            perm = params.get("permutation", params.get("axes"))
-            if perm is None:
-                perm = tuple(reversed(range(len(shapes[0]))))
-            emit(f"transpose@{list(perm)}", f"GTranspose {nlist(perm)}", [operand(ins[0])], o)
-        elif p in REDUCE_PRIMS:
-            rk = REDUCE_PRIMS[p]
-            if params.get("keepdims", False):
-                raise Unrecognised(f"{prim} with keepdims")
-            rank = len(shapes[0])
-            axes = params.get("axes")
-            axes = tuple(range(rank)) if axes is None else tuple(int(a_) % max(1, rank) for a_ in axes)
-            if not axes:
-                raise Unrecognised(f"{prim} over no axis")
-            mask = "[" + "; ".join(blit(i_ in axes) for i_ in range(rank)) + "]"
-            src, out_dt = dtn(ins[0][2]), dtn(oaval)
-            req = params.get("dtype")
-            req = None if req is None else str(np.dtype(req))
-            if rk in ("RAnd", "ROr"):
-                if src != "bool" or out_dt != "bool":
-                    raise Unrecognised(f"{prim} on {src}")
-                emit(f"{p}@{list(axes)}/{rank}", f"G{'ReduceAnd' if rk == 'RAnd' else 'ReduceOr'} {mask}", [operand(ins[0])], o)
-            elif out_dt not in INT_DTYPES or (src not in INT_DTYPES and src != "bool"):
-                raise Unrecognised(f"{prim} {src} -> {out_dt}")
-            else:
-                # the type the plugin reduces in: the requested dtype, else the (promoted) result type (jnp.sum / jnp.prod
-                # promote bool and small integers; the plugins then cast to the result type first)
-                eff = req or (out_dt if src != out_dt else src)
-                key = f"{p}:{src}>{out_dt}@{list(axes)}/{rank}"
-                if src == "bool":
-                    if rk in ("RSum", "RProd") and eff == out_dt and not (rk == "RSum" and eff in work["sum64"]) \
-                            and not (rk == "RProd" and eff in work["prod64"]):
-                        emit(key, f"GReduceCastB {rk} {sb_lit(out_dt)} {mask}", [operand(ins[0])], o)
-                    else:
-                        raise Unrecognised(f"{prim} bool -> {out_dt} (dtype={req})")
-                elif rk == "RSum" and eff in work["sum64"]:
-                    emit(key, f"GReduceSum64 {sb_lit(out_dt)} {mask}", [operand(ins[0])], o)
-                elif rk == "RProd" and eff in work["prod64"]:
-                    emit(key, f"GReduceProd64 {sb_lit(out_dt)} {mask}", [operand(ins[0])], o)
-                elif rk in ("RMax", "RMin") and src in work["mm32"] and src == out_dt:
-                    emit(key, f"GReduce{rk[1:]}32 {sb_lit(src)} {mask}", [operand(ins[0])], o)
-                elif req is None and src == out_dt:
-                    emit(key, f"GReduce {rk} {sb_lit(src)} {mask}", [operand(ins[0])], o)
-                elif rk in ("RSum", "RProd") and eff == out_dt and src != out_dt:
-                    emit(key, f"GReduceCast {rk} {sb_lit(out_dt)} {mask}", [operand(ins[0])], o)
+        def operand(a):
+            if a[0] == "v":
+                return a[1]
+            if a[1].shape != ():
+                raise Unrecognised("non-scalar literal")
+            o = counter[0]
+            counter[0] += 1
+            emit(f"lit:{a[1].dtype}:{a[1].item()}", f"GConst {sval_lit(a[1])}", [], o)
+            return o
+        for prim, params, ins, o, oaval in eqns:
+            p = SPRIM_ALIAS.get(prim, prim)
+            shapes = [tuple(a[2].shape) for a in ins]
+            if p == "__call__":
+                # a call: its body is a scope of its own; the entry is added AFTER the calls inside the body (innermost first)
+                btxt, bnin, bout = scope(params["jaxpr"])
+                ckey = f"call#{len(calls)}"
+                calls.append((ckey, f"mkCall ({btxt})%string {nlist(range(bnin))} {bout}%nat"))
+                keys.append(ckey)
+                prog.append(f"mkEqn \"{ckey}\" [{'; '.join(f'IVar {operand(a_)}%nat' for a_ in ins)}] [Some {o}%nat]")
+            elif p == "broadcast_in_dim":
+                target, bd = tuple(params["shape"]), tuple(params["broadcast_dimensions"])
+                if ins[0][0] == "lit":
+                    if ins[0][1].shape != ():
+                        raise Unrecognised("broadcast of a non-scalar literal")
+                    emit(f"full:{ins[0][1].dtype}:{ins[0][1].item()}->{list(target)}", f"GFull {nlist(target)} {sval_lit(ins[0][1])}", [], o)
                 else:
-                    raise Unrecognised(f"{prim} {src} -> {out_dt} (dtype={req})")
-        elif p == "iota":
-            shp, dim_, dt_ = tuple(params["shape"]), int(params["dimension"]), str(np.dtype(params["dtype"]))
-            if dt_ not in INT_DTYPES or ins:
-                raise Unrecognised(f"iota of dtype {dt_}")
-            if len(shp) == 1:
-                emit(f"iota:{dt_}[{shp[0]}]", f"GIota1 {sb_lit(dt_)} {shp[0]}%nat", [], o)
+                    emit(f"broadcast_in_dim:{list(shapes[0])}->{list(target)}@{list(bd)}",
+                         f"GBcast {nlist(shapes[0])} {nlist(target)} {nlist(bd)}", [ins[0][1]], o)
+            elif p == "reshape":
+                if params.get("dimensions") is not None:
+                    raise Unrecognised("reshape with dimensions")
+                new = tuple(params.get("new_sizes", oaval.shape))
+                emit(f"reshape->{list(new)}", f"GReshape {nlist(new)}", [operand(ins[0])], o)
+            elif p == "squeeze":
+                dims = tuple(int(d) % max(1, len(shapes[0])) for d in params["dimensions"])
+                emit(f"squeeze@{list(dims)}", f"GSqueeze {nlist(dims)}", [operand(ins[0])], o)
+            elif p == "transpose":
+                perm = params.get("permutation", params.get("axes"))
+                if perm is None:
+                    perm = tuple(reversed(range(len(shapes[0]))))
+                emit(f"transpose@{list(perm)}", f"GTranspose {nlist(perm)}", [operand(ins[0])], o)
+            elif p in ("argmax", "argmin", "jax.numpy.argmax", "jax.numpy.argmin"):
+                rank = len(shapes[0])
+                axes = tuple(int(a_) % max(1, rank) for a_ in params["axes"])
+                idt = str(np.dtype(params["index_dtype"]))
+                if len(axes) != 1 or params.get("keepdims", False) or params.get("select_last_index", 0) or idt not in INT_DTYPES \
+                        or dtn(ins[0][2]) not in INT_DTYPES or dtn(oaval) != idt:
+                    raise Unrecognised(f"{prim} with {params}")
+                mask = "[" + "; ".join(blit(i_ in axes) for i_ in range(rank)) + "]"
+                rk = "RArgMax" if p.endswith("argmax") else "RArgMin"
+                emit(f"{p}:{dtn(ins[0][2])}>{idt}@{list(axes)}/{rank}",
+                     f"GArgId {rk} {mask}" if idt == "int64" else f"GArg {rk} {sb_lit(idt)} {mask}", [operand(ins[0])], o)
+            elif p in REDUCE_PRIMS:
+                rk = REDUCE_PRIMS[p]
+                if params.get("keepdims", False):
+                    raise Unrecognised(f"{prim} with keepdims")
+                rank = len(shapes[0])
+                axes = params.get("axes")
+                axes = tuple(range(rank)) if axes is None else tuple(int(a_) % max(1, rank) for a_ in axes)
+                if not axes:
+                    raise Unrecognised(f"{prim} over no axis")
+                mask = "[" + "; ".join(blit(i_ in axes) for i_ in range(rank)) + "]"
+                src, out_dt = dtn(ins[0][2]), dtn(oaval)
+                req = params.get("dtype")
+                req = None if req is None else str(np.dtype(req))
+                if rk in ("RAnd", "ROr"):
+                    if src != "bool" or out_dt != "bool":
+                        raise Unrecognised(f"{prim} on {src}")
+                    emit(f"{p}@{list(axes)}/{rank}", f"G{'ReduceAnd' if rk == 'RAnd' else 'ReduceOr'} {mask}", [operand(ins[0])], o)
+                elif out_dt not in INT_DTYPES or (src not in INT_DTYPES and src != "bool"):
+                    raise Unrecognised(f"{prim} {src} -> {out_dt}")
+                else:
+                    # the type the plugin reduces in: the requested dtype, else the (promoted) result type (jnp.sum / jnp.prod
+                    # promote bool and small integers; the plugins then cast to the result type first)
+                    eff = req or (out_dt if src != out_dt else src)
+                    key = f"{p}:{src}>{out_dt}@{list(axes)}/{rank}"
+                    if src == "bool":
+                        if rk in ("RSum", "RProd") and eff == out_dt and not (rk == "RSum" and eff in work["sum64"]) \
+                                and not (rk == "RProd" and eff in work["prod64"]):
+                            emit(key, f"GReduceCastB {rk} {sb_lit(out_dt)} {mask}", [operand(ins[0])], o)
+                        else:
+                            raise Unrecognised(f"{prim} bool -> {out_dt} (dtype={req})")
+                    elif rk == "RSum" and eff in work["sum64"]:
+                        emit(key, f"GReduceSum64 {sb_lit(out_dt)} {mask}", [operand(ins[0])], o)
+                    elif rk == "RProd" and eff in work["prod64"]:
+                        emit(key, f"GReduceProd64 {sb_lit(out_dt)} {mask}", [operand(ins[0])], o)
+                    elif rk in ("RMax", "RMin") and src in work["mm32"] and src == out_dt:
+                        emit(key, f"GReduce{rk[1:]}32 {sb_lit(src)} {mask}", [operand(ins[0])], o)
+                    elif req is None and src == out_dt:
+                        emit(key, f"GReduce {rk} {sb_lit(src)} {mask}", [operand(ins[0])], o)
+                    elif rk in ("RSum", "RProd") and eff == out_dt and src != out_dt:
+                        emit(key, f"GReduceCast {rk} {sb_lit(out_dt)} {mask}", [operand(ins[0])], o)
+                    else:
+                        raise Unrecognised(f"{prim} {src} -> {out_dt} (dtype={req})")
+            elif p == "iota":
+                shp, dim_, dt_ = tuple(params["shape"]), int(params["dimension"]), str(np.dtype(params["dtype"]))
+                if dt_ not in INT_DTYPES or ins:
+                    raise Unrecognised(f"iota of dtype {dt_}")
+                if len(shp) == 1:
+                    emit(f"iota:{dt_}[{shp[0]}]", f"GIota1 {sb_lit(dt_)} {shp[0]}%nat", [], o)
+                else:
+                    emit(f"iota:{dt_}{list(shp)}@{dim_}", f"GIota {sb_lit(dt_)} {nlist(shp)} {dim_}%nat", [], o)
+            elif p == "jax.numpy.arange":
+                sa = tuple(params.get("static_args", ()))
+                n_ = tuple(oaval.shape)[0]
+                if dtn(oaval) not in INT_DTYPES or not (sa == (n_,) or sa == (0, n_) or sa == (0, n_, 1)):
+                    raise Unrecognised(f"arange{sa} of dtype {dtn(oaval)}")
+                emit(f"arange[{n_}]", f"GArange {n_}%nat", [], o)          # the start / stop operands are static: not read
+            elif p == "concatenate":
+                ax = int(params["dimension"])
+                emit(f"concatenate@{ax}x{len(ins)}", f"GConcat {len(ins)}%nat {ax}%nat", [operand(a) for a in ins], o)
+            elif p == "slice":
+                st, li = tuple(params["start_indices"]), tuple(params["limit_indices"])
+                sr = params.get("strides")
+                sr = (1,) * len(st) if sr is None else tuple(sr)
+                emit(f"slice{list(st)}:{list(li)}:{list(sr)}", f"GSlice {nlist(st)} {nlist(li)} {nlist(sr)}", [operand(ins[0])], o)
+            elif p == "convert_element_type":
+                src, new = dtn(ins[0][2]), str(np.dtype(params["new_dtype"]))
+                if src in INT_DTYPES and new in INT_DTYPES:
+                    key = f"convert_element_type>{new}"
+                elif src in INT_DTYPES and new == "bool":
+                    key = f"convert_element_type:{src}>bool"
+                elif src == "bool" and new in INT_DTYPES:
+                    key = f"convert_element_type:bool>{new}"
+                else:
+                    raise Unrecognised(f"convert_element_type {src} -> {new}")
+                emit(key, f"GElem \"{key}\"", [operand(ins[0])], o)
+            elif p in STABLE_PRIMS:
+                dts = [dtn(a[2]) for a in ins]
+                if p == "integer_pow":
+                    key = f"integer_pow{int(params['y'])}:{dts[0]}"
+                elif p in ("select_n", "where"):
+                    key = f"{p}:{dts[1]}"
+                else:
+                    key = f"{p}:{dts[0]}"
+                emit(key, f"GElem \"{key}\"", [operand(a) for a in ins], o)
             else:
-                emit(f"iota:{dt_}{list(shp)}@{dim_}", f"GIota {sb_lit(dt_)} {nlist(shp)} {dim_}%nat", [], o)
-        elif p == "jax.numpy.arange":
-            sa = tuple(params.get("static_args", ()))
-            n_ = tuple(oaval.shape)[0]
-            if dtn(oaval) not in INT_DTYPES or not (sa == (n_,) or sa == (0, n_) or sa == (0, n_, 1)):
-                raise Unrecognised(f"arange{sa} of dtype {dtn(oaval)}")
-            emit(f"arange[{n_}]", f"GArange {n_}%nat", [], o)          # the start / stop operands are static: not read
-        elif p == "concatenate":
-            ax = int(params["dimension"])
-            emit(f"concatenate@{ax}x{len(ins)}", f"GConcat {len(ins)}%nat {ax}%nat", [operand(a) for a in ins], o)
-        elif p == "slice":
-            st, li = tuple(params["start_indices"]), tuple(params["limit_indices"])
-            sr = params.get("strides")
-            sr = (1,) * len(st) if sr is None else tuple(sr)
-            emit(f"slice{list(st)}:{list(li)}:{list(sr)}", f"GSlice {nlist(st)} {nlist(li)} {nlist(sr)}", [operand(ins[0])], o)
-        elif p == "convert_element_type":
-            src, new = dtn(ins[0][2]), str(np.dtype(params["new_dtype"]))
-            if src in INT_DTYPES and new in INT_DTYPES:
-                key = f"convert_element_type>{new}"
-            elif src in INT_DTYPES and new == "bool":
-                key = f"convert_element_type:{src}>bool"
-            elif src == "bool" and new in INT_DTYPES:
-                key = f"convert_element_type:bool>{new}"
-            else:
-                raise Unrecognised(f"convert_element_type {src} -> {new}")
-            emit(key, f"GElem \"{key}\"", [operand(ins[0])], o)
-        elif p in STABLE_PRIMS:
-            dts = [dtn(a[2]) for a in ins]
-            if p == "integer_pow":
-                key = f"integer_pow{int(params['y'])}:{dts[0]}"
-            elif p in ("select_n", "where"):
-                key = f"{p}:{dts[1]}"
-            else:
-                key = f"{p}:{dts[0]}"
-            emit(key, f"GElem \"{key}\"", [operand(a) for a in ins], o)
-        else:
-            raise Unrecognised(f"primitive {prim} is outside the structural fragment")
+                raise Unrecognised(f"primitive {prim} is outside the structural fragment")
+        return "[" + "; ".join(prog) + "]", nin, out
+    ptxt, nin, out = scope(cj.jaxpr)
+    sp.calls = "[" + "; ".join(f"(\"{k_}\", {c_})" for k_, c_ in calls) + "]"
     tab_t = "[" + "; ".join(f"(\"{k_}\", {s_})" for k_, s_ in tab.items()) + "]"
-    return tab_t, "[" + "; ".join(prog) + "]", out, nin, keys
+    return tab_t, ptxt, out, nin, keys
 
 
 _R_SB1 = {"Neg": "ONeg", "Abs": "OAbs", "Sign": "OSign", "BitwiseNot": "OBitNot"}
@@ -1933,6 +1998,16 @@ def rtree_of_model(model):
             if len({k_[0] for k_ in kids}) != 1 or int(_attr(n, "axis")) < 0:
                 raise Unrecognised("Concat of mixed types / negative axis")
             env[out] = (kids[0][0], f"(RConcat {int(_attr(n, 'axis'))}%nat [{'; '.join(k_[1] for k_ in kids)}])")
+            continue
+        if op in ("ArgMax", "ArgMin"):
+            only("axis", "keepdims", "select_last_index")
+            dt, x = val(n.input[0])
+            rank, ax = ranks.get(n.input[0]), int(_attr(n, "axis", 0))
+            if int(_attr(n, "keepdims", 1)) != 0 or int(_attr(n, "select_last_index", 0)) != 0 or len(n.input) != 1 \
+                    or dt not in INT_DTYPES or rank is None or not (0 <= ax < rank):
+                raise Unrecognised(f"{op} attributes on {dt} rank {rank}")
+            mask = "[" + "; ".join(blit(i_ == ax) for i_ in range(rank)) + "]"
+            env[out] = ("int64", f"(RReduce R{op} (true, 64) {mask} {x})")
             continue
         if op in ("ReduceSum", "ReduceProd", "ReduceMax", "ReduceMin"):
             only("keepdims", "noop_with_empty_axes")
@@ -2096,6 +2171,26 @@ def sprog_jobs(sp, jobs, ort_outs):
     rows = "; ".join("([" + "; ".join(cten_lit(c) for c in cols) + "], " + cten_lit(ref_) + ")" for cols, ref_ in zip(sp.fills, sp.jax))
     sp.j_job = jobs.add(hdr(p) + f"Definition {p}_rows : list (list cten * cten) := [{rows}].\n"
                         f"Eval vm_compute in bad_idx_ (fun c => opt_cten_is (sp_jax {p}_tab {p}_prog (fst c) {sp.out}%nat) (snd c)) 0 {p}_rows.\n")
+    if sp.nested is not None:
+        # NOT flattened: the jit bodies are calls (LiftCall); the model dispatcher lowers them in place, in a fresh scope
+        ntab, nprog, nout, ncalls = sp.nested
+
+        def nhdr(p):
+            return (f"Definition {p}_tab : list (string * gspec) := ({ntab})%string.\n"
+                    f"Definition {p}_calls : list (string * call) := ({ncalls})%string.\n"
+                    f"Definition {p}_prog : jaxpr := ({nprog})%string.\n")
+        p = f"sp_{sp.id}_ns"
+        sp.ns_job = jobs.add(nhdr(p) + f"Goal spn_tree {p}_tab {p}_calls {p}_prog {sp.nin}%nat {nout}%nat = Some (gtree_of {sp.real}).\n"
+                             f"Proof. first [ timeout 120 (vm_compute; reflexivity); idtac \"TIE_S_OK\" | idtac \"TIE_S_BAD\" ]. Abort.\n")
+        p = f"sp_{sp.id}_nj"
+        rows = "; ".join("([" + "; ".join(cten_lit(c) for c in cols) + "], " + cten_lit(ref_) + ")" for cols, ref_ in zip(sp.fills, sp.jax))
+        sp.nj_job = jobs.add(nhdr(p) + f"Definition {p}_rows : list (list cten * cten) := [{rows}].\n"
+                             f"Eval vm_compute in bad_idx_ (fun c => opt_cten_is (spn_jax {p}_tab {p}_calls {p}_prog (fst c) {nout}%nat) (snd c)) 0 {p}_rows.\n")
+        if ort_outs is not None:
+            p = f"sp_{sp.id}_no"
+            rows = "; ".join("([" + "; ".join(cten_lit(c) for c in cols) + "], " + cten_lit(o_) + ")" for cols, o_ in zip(sp.fills, ort_outs))
+            sp.no_job = jobs.add(nhdr(p) + f"Definition {p}_rows : list (list cten * cten) := [{rows}].\n"
+                                 f"Eval vm_compute in bad_idx_ (fun c => opt_cten_is (spn_onnx {p}_tab {p}_calls {p}_prog (fst c) {nout}%nat) (snd c)) 0 {p}_rows.\n")
     if ort_outs is not None:
         p = f"sp_{sp.id}_o"
         rows = "; ".join("([" + "; ".join(cten_lit(c) for c in cols) + "], " + cten_lit(o_) + ")" for cols, o_ in zip(sp.fills, ort_outs))
@@ -2204,7 +2299,7 @@ JNP_PROVED = {"abs": "jnp_abs", "add": "jnp_add", "bitwise_and": "jnp_bitwise_an
               "minimum": "jnp_minimum", "right_shift": "jnp_right_shift", "sign": "jnp_sign", "where": "where",
               "pow": "jnp_power2, jnp_power3 (constant exponent)", "power": "jnp_power2, jnp_power3 (constant exponent)"}
 # plugins whose integer lowering is a tensor-level kernel of LiftStruct, exercised by a traced program of corpus (f)
-JNP_TRACED = {"arange": "arange", "sum": "sum_axis", "prod": "prod_axis", "max": "max_min", "min": "max_min", "all": "any_all", "any": "any_all",
+JNP_TRACED = {"argmax": "jnp_argmax", "argmin": "argmin_u8", "arange": "arange", "sum": "sum_axis", "prod": "prod_axis", "max": "max_min", "min": "max_min", "all": "any_all", "any": "any_all",
               "concatenate": "jnp_concat", "squeeze": "expand_sq", "transpose": "perm3"}
 _FLOAT = "floating-point numerics (not exact)"
 _RED = "reduction / scan over an axis (not an elementwise kernel)"
@@ -2218,7 +2313,7 @@ JNP_NOT_EXACT = {
     "floor": "float operator; integer operands are promoted to float by JAX (lax.floor is the exact kernel)",
     "divide": "true division of integers yields a rounded float (Cast, Cast, Div): explored only",
     "select": "jnp.select (list of conditions): a Where cascade, explored only",
-    **{n: _RED for n in ("amax", "amin", "argmax", "argmin", "cumprod", "cumsum", "nancumprod", "mean",
+    **{n: _RED for n in ("amax", "amin", "cumprod", "cumsum", "nancumprod", "mean",
                          "sort", "unique", "searchsorted", "digitize", "histogram", "histogram2d", "histogramdd")},
     **{n: _MOVE for n in ("compress", "diag", "diagonal", "eye", "full", "moveaxis", "ones", "pad", "reshape",
                           "shape", "size", "split", "stack", "take", "tile", "trilu", "unstack", "zeros")},
@@ -2399,6 +2494,10 @@ def run(ctx):
                                         enable_double_precision=bool(flag))
                     sp.tab, sp.prog, sp.out, sp.nin, sp.keys = sprog_model(sp)
                     sp.real = rtree_of_model(sp.model)
+                    sp.nested = None
+                    ntab, nprog, nout, _, _ = sprog_model(sp, nested=True)
+                    if sp.calls != "[]":
+                        sp.nested = (ntab, nprog, nout, sp.calls)          # the same program with its jit bodies kept as calls
                 except Unrecognised as e:
                     sp.err = f"not recognised: {e}"
                 except Exception as e:  # noqa: BLE001
@@ -2730,7 +2829,7 @@ def run(ctx):
                          "c01k_programs_generated_outside_fragment": outside[:10],
                          "c01k_program_samples": [pg.text for pg in progs if pg.status != "outside-fragment"][:8]})
     # ---- (f) traced programs: judge
-    n_sp_tied = n_sp_jax = n_sp_onnx = n_sp_searched = sp_points = 0
+    n_sp_tied = n_sp_jax = n_sp_onnx = n_sp_searched = sp_points = n_sp_nested = n_sp_nested_ok = 0
     for sp in sprogs:
         desc = f"{sp.text} with {', '.join('xyz'[i] + ':' + sp.dt + str(list(sh)) for i, sh in enumerate(sp.shapes))}"
         if sp.model is None or sp.jax is None:
@@ -2770,6 +2869,15 @@ def run(ctx):
                        f"traced program {desc}: LiftStruct.sp_jax differs from eager JAX on fills {jb} "
                        f"(first: operands {[c.tolist() for c in sp.fills[jb[0]]] if jb else '?'}, JAX {sp.jax[jb[0]].tolist() if jb else '?'})")
         deviated = bool(node_op_dtypes(sp.model) & deviations)
+        if sp.nested is not None:
+            n_sp_nested += 1
+            okn = results[sp.ns_job] is True and results[sp.nj_job] == [] and (sp.no_job is None or results[sp.no_job] == [] or deviated)
+            n_sp_nested_ok += bool(okn)
+            if not okn:
+                ctx.oblige(f"tie-nested-sprogram:{sp.id}", False, "tie",
+                           f"traced program {desc} with its jit bodies kept as calls (LiftCall): graph tied {results[sp.ns_job]}, "
+                           f"JAX semantics differs on fills {results[sp.nj_job]}, ONNX semantics differs on fills "
+                           f"{results[sp.no_job] if sp.no_job is not None else '-'}; calls {sp.nested[3][:400]}")
         if sp.o_job is not None:
             ob = results[sp.o_job]
             if ob == [] or (deviated and ob is not None and all(i_ >= sp.small for i_ in ob)):
@@ -2804,6 +2912,8 @@ def run(ctx):
     ctx.coverage.update({"c01k_traced_programs": len(sprogs), "c01k_traced_programs_structure_tied": n_sp_tied,
                          "c01k_traced_programs_jax_semantics_tied": n_sp_jax, "c01k_traced_programs_onnx_semantics_tied": n_sp_onnx,
                          "c01k_traced_programs_searched_in_onnxruntime": n_sp_searched, "c01k_traced_program_points": sp_points,
+                         "c01k_traced_programs_with_nested_jit_kept_as_calls": n_sp_nested,
+                         "c01k_traced_programs_with_nested_jit_tied": n_sp_nested_ok,
                          "c01k_traced_program_list": [sp.text for sp in sprogs],
                          "c01k_traced_program_equations": sorted({k_.split(":")[0].split("->")[0].split("@")[0] for sp in sprogs for k_ in (sp.keys or [])})})
     explored_judge(ctx, xprogs)
